@@ -33,5 +33,7 @@ var (
 	SumFourSquares     = common.SumFourSquares
 	PrimeSqrt          = common.PrimeSqrt
 	ModSqrt            = common.ModSqrt
-	RandomPrimeInRange = func(rand io.Reader, start, length uint) (*big.Int, error) { return common.RandomPrimeInRange(rand, start, length) }
+	RandomPrimeInRange = func(rand io.Reader, start, length uint) (*big.Int, error) {
+		return common.RandomPrimeInRange(rand, start, length)
+	}
 )
